@@ -95,33 +95,71 @@ def programs(tier):
   return res
 
 
-def histories(tier, hashseed=0):
-  """In-process histories explored under one hash seed (the cold history () is always explored)."""
-  hs = [()]
-  n = len(POOL)
-  singles = [(i,) for i in range(n)]
+# ---------------------------------------------------------------- configurations
+#
+# state      = (hash seed, loader mode, sequence of programs analysed so far in the process)
+# transition = analyse one more program
+#
+#   cold    every program in its own process forked from the import-only state (fresh loader,
+#           builtins not yet loaded): the reference "fresh process" configuration
+#   fresh   a chain: the programs of a chunk one after the other in ONE process, a new loader each
+#   reuse   a chain with one loader shared by the whole chunk
+#
+# Chains are cut from differently ordered program lists with different chunk counts, so every
+# program is preceded by different histories in different configurations.
+
+
+def configs(tier, hashseed):
+  """[(name, mode, order, nchunks, stride)] for one hash seed; stride thins the cold configuration."""
+  hs = int(hashseed)
   if tier == "quick":
-    # quick: every seed cold; the history dimension is explored under seed 0 only
-    return hs + ([(0,), (2, 0)] if int(hashseed) == 0 else [])
-  if int(hashseed) == 0:
-    return hs + singles + [(2, 0), (0, 2), (1, 3), (4, 1)]
-  return hs + [(int(hashseed) % n,)]
+    chains = {0: [("fresh-fwd", "fresh", "fwd", 8, 1), ("reuse-rev", "reuse", "rev", 7, 1)],
+              1: [("reuse-rot", "reuse", "rot", 5, 1)], 2: [("fresh-rev", "fresh", "rev", 5, 1)]}
+    return [("cold", "cold", "fwd", 4, 8)] + chains.get(hs, chains[1])
+  out = [("cold", "cold", "fwd", 32, 1 if hs == 0 else 4),
+         ("fresh-fwd", "fresh", "fwd", 16, 1), ("reuse-rev", "reuse", "rev", 13, 1),
+         ("fresh-rot", "fresh", "rot", 11, 1), ("reuse-fwd", "reuse", "fwd", 7, 1)]
+  return out
+
+
+def ordered(progs, order):
+  progs = list(progs)
+  if order == "rev":
+    progs.reverse()
+  elif order == "rot":
+    k = len(progs) // 3
+    progs = progs[k:] + progs[:k]
+    progs = progs[::2] + progs[1::2]
+  return progs
+
+
+def chunks_of(progs, order, nchunks, stride):
+  ps = ordered(progs, order)[::stride]
+  size = -(-len(ps) // nchunks)
+  return [ps[i:i + size] for i in range(0, len(ps), size)]
+
+
+def _pickle_digest(arg):
+  ast, loader = arg
+  from pytype.imports import pickle_utils
+  from pytype.pytd import serialize_ast
+  try:
+    ast = serialize_ast.PrepareForExport("m", ast, loader)
+    return hashlib.sha1(pickle_utils.Serialize(ast, src_path="m.py")).hexdigest()
+  except Exception as e:  # pylint: disable=broad-except
+    return "pickle-exception:" + type(e).__name__
 
 
 def _triple(src, loader, opts):
   """(pyi, errors, pickle digest) of one analysis."""
   from pytype import io, load_pytd
-  from pytype.imports import pickle_utils
-  from pytype.pytd import serialize_ast
   loader = loader or load_pytd.create_loader(opts)
   try:
     ret, pyi = io.generate_pyi(src, opts, loader)
     errs = [(e.name, e.line, e.message) for e in ret.context.errorlog.unique_sorted_errors()]
-    try:
-      ast = serialize_ast.PrepareForExport("m", ret.ast, loader)
-      pk = hashlib.sha1(pickle_utils.Serialize(ast, src_path="m.py")).hexdigest()
-    except Exception as e:  # pylint: disable=broad-except
-      pk = "pickle-exception:" + type(e).__name__
+    # PrepareForExport prints and re-parses the AST, so SerializeAst's in-place clearing of class
+    # pointers only touches that fresh copy (unlike serialising a loader's own cached AST)
+    pk = _pickle_digest((ret.ast, loader))
   except Exception as e:  # pylint: disable=broad-except
     pyi, errs, pk = "exception:" + type(e).__name__ + ":" + str(e)[:100], [], ""
   return pyi, errs, pk
@@ -130,12 +168,11 @@ def _triple(src, loader, opts):
 def _one(arg):
   src, loader, opts = arg
   pyi, errs, pk = _triple(src, loader, opts)
-  order_ok = errs == sorted(errs, key=lambda e: (e[1] or 0)) or _sorted_by_line(errs)
   uniq_ok = len(set(errs)) == len(errs)
   return {"d": hashlib.sha1(json.dumps([pyi, errs, pk]).encode()).hexdigest()[:16],
           "pyi": hashlib.sha1(pyi.encode()).hexdigest()[:8],
           "err": hashlib.sha1(json.dumps(errs).encode()).hexdigest()[:8], "pk": pk[:8],
-          "nerr": len(errs), "sorted": order_ok, "unique": uniq_ok}
+          "nerr": len(errs), "sorted": _sorted_by_line(errs), "unique": uniq_ok}
 
 
 def _sorted_by_line(errs):
@@ -143,20 +180,30 @@ def _sorted_by_line(errs):
   return lines == sorted(lines)
 
 
-def _config_job(job):
-  """Runs inside a pool worker forked from the import-only state."""
-  hist, reuse, progs = job
+def _chain_job(job):
+  """Runs inside a pool worker forked from the import-only state (one worker per job)."""
+  name, mode, chunk = job
   opts = pt.options(module_name="m")
+  out = {}
+  if mode == "cold":
+    for i, src in chunk:
+      out[i] = vrun.isolated(_one, (src, None, opts))
+    return name, out
   loader = None
-  if reuse or hist:
+  if mode == "reuse":
     from pytype import load_pytd
     loader = load_pytd.create_loader(opts)
-  for k in hist:
-    _triple(POOL[k], loader if reuse else None, opts)
-  out = {}
-  for i, src in progs:
-    out[i] = vrun.isolated(_one, (src, loader if reuse else None, opts))
-  return out
+  for i, src in chunk:
+    out[i] = _one((src, loader, opts))
+  return name, out
+
+
+def jobs_for(tier, hashseed, progs):
+  jobs = []
+  for name, mode, order, nchunks, stride in configs(tier, hashseed):
+    for ci, chunk in enumerate(chunks_of(progs, order, nchunks, stride)):
+      jobs.append(("%s#%d" % (name, ci), mode, chunk))
+  return jobs
 
 
 def child_main(argv):
@@ -167,39 +214,42 @@ def child_main(argv):
   from pytype.imports import pickle_utils
   from pytype.pytd import serialize_ast
   del io, load_pytd, pickle_utils, serialize_ast
-  progs = programs(tier)
-  jobs = []
-  nprocs = int(os.environ.get("VERIF_C04_PROCS", "6"))
-  for h in histories(tier, os.environ.get('VERIF_HASHSEED', '0')):
-    # the cold configuration pays the builtins load per program: split it finer
-    nchunk = 8 if not h else 2
-    for c in range(nchunk):
-      chunk = progs[c::nchunk]
-      if not chunk:
-        continue
-      jobs.append((h, False, chunk))
-      if h:
-        jobs.append((h, True, chunk))
+  only = os.environ.get("VERIF_C04_JOBS")
+  if only:
+    jobs = [tuple(j) for j in json.load(open(only))]
+    jobs = [(n, m, [tuple(x) for x in c]) for n, m, c in jobs]
+  else:
+    jobs = jobs_for(tier, os.environ.get("VERIF_HASHSEED", "0"), programs(tier))
+  nprocs = int(os.environ.get("VERIF_C04_PROCS", "5"))
   res = {}
-  for job, out in vrun.pmap(_config_job, jobs, procs=min(len(jobs), nprocs), chunksize=1, maxtasks=1, shuffle=False):
-    res.setdefault("%s|%s" % (",".join(map(str, job[0])) or "cold", "reuse" if job[1] else "fresh"), {}).update(out)
+  for job, (name, out) in vrun.pmap(_chain_job, jobs, procs=min(len(jobs), nprocs), chunksize=1, maxtasks=1, shuffle=False):
+    res.setdefault(name.split("#")[0], {}).update({i: dict(r, job=name) for i, r in out.items()})
   with open(outp, "w") as f:
     json.dump(res, f)
 
 
-def run_seed(hashseed, tier):
+def run_seed(hashseed, tier, jobs_file=None):
   fd, outp = tempfile.mkstemp(suffix=".json")
   os.close(fd)
   env = dict(os.environ, PYTHONHASHSEED=str(hashseed), VERIF_HASHSEED=str(hashseed), VERIF_REEXEC="1")
+  if jobs_file:
+    env["VERIF_C04_JOBS"] = jobs_file
   p = subprocess.Popen([sys.executable, "-W", "ignore", "-c",
                         "import sys; sys.path.insert(0, %r); from vk.checks import c04; c04.child_main(sys.argv[1:])" % boot.VERIF,
                         tier, outp], env=env)
   return p, outp
 
 
-def collect(tier, seeds):
-  procs = [(s,) + run_seed(s, tier) for s in seeds]
+def collect(tier, seeds, jobs_files=None):
+  # at most ~16 analysis processes at a time: seeds run in waves of three interpreters x 5 workers
   data = {}
+  waves = [seeds[i:i + 3] for i in range(0, len(seeds), 3)]
+  procs = []
+  for wave in waves:
+    started = [(s,) + run_seed(s, tier, (jobs_files or {}).get(s)) for s in wave]
+    for s, p, outp in started:
+      p.wait()
+    procs += started
   for s, p, outp in procs:
     rc = p.wait()
     if rc != 0:
@@ -218,20 +268,23 @@ def compare(data, progs):
     seen = {}
     for s, confs in data.items():
       for conf, out in confs.items():
+        if i not in out:
+          continue   # thinned configuration (cold stride)
         transitions += 1
         r = out[i]
-        seen.setdefault(r["d"], []).append(("seed=%s" % s, conf, r))
+        seen.setdefault(r["d"], []).append((int(s), r["job"], r))
         if not r["sorted"] or not r["unique"]:
           viol.append((vrun.sha(i + "order"), "errors not %s (seed=%s, %s)" % (
-              "sorted" if not r["sorted"] else "unique", s, conf), {"pid": i, "src": src, "kind": "order"}))
+              "sorted" if not r["sorted"] else "unique", s, conf),
+                       {"pid": i, "src": src, "kind": "order", "configs": [[int(s), r["job"]]]}))
     states += len(seen)
     if len(seen) > 1:
-      groups = sorted(seen.values(), key=len, reverse=True)
+      groups = sorted(seen.values(), key=lambda g: (-len(g), g[0][:2]))
       a, b = groups[0][0], groups[1][0]
       what = [k for k in ("pyi", "err", "pk") if a[2][k] != b[2][k]]
-      viol.append((vrun.sha(i + "diff"), "output differs between configurations (%s): %s/%s vs %s/%s; %d distinct outputs" % (
-          "+".join(what), a[0], a[1], b[0], b[1], len(seen)),
-                   {"pid": i, "src": src, "kind": "diff", "configs": [[g[0][0], g[0][1]] for g in groups]}))
+      viol.append((vrun.sha(i + "diff"), "output differs between configurations (%s): seed=%s/%s vs seed=%s/%s; %d distinct outputs over %d configurations" % (
+          "+".join(what), a[0], a[1], b[0], b[1], len(seen), sum(len(g) for g in groups)),
+                   {"pid": i, "src": src, "kind": "diff", "configs": [[g[0][0], g[0][1]] for g in groups[:4]]}))
   return viol, states, transitions
 
 
@@ -240,45 +293,66 @@ def run(rep, tier, seed):
   progs = programs(tier)
   data = collect(tier, seeds)
   viol, states, transitions = compare(data, progs)
+  seen = set()
   for key, summ, case in viol:
+    if key in seen:
+      continue
+    seen.add(key)
     case["tier"] = tier
-    case["seeds"] = seeds
     rep.violation(key, summ, case)
-  nconf = sum(len(c) for c in data.values())
-  rep.cov.update({"states": states, "transitions": transitions, "traces_validated_against_impl": transitions,
-                  "programs": len(progs), "hash_seeds": seeds, "configurations": nconf,
-                  "histories_seed0": [list(h) for h in histories(tier, 0)],
-                  "histories_other_seeds": [list(h) for h in histories(tier, 1)]})
+  confs = {s: configs(tier, s) for s in seeds}
+  rep.cov.update({"states": transitions, "distinct_outputs_summed_over_programs": states,
+                  "transitions": transitions, "traces_validated_against_impl": transitions,
+                  "programs": len(progs), "hash_seeds": seeds,
+                  "configurations_per_seed": {str(s): [list(c) for c in cs] for s, cs in confs.items()},
+                  "chains": sum(len(chunks_of(progs, o, n, st)) for s in seeds for _, m, o, n, st in confs[s] if m != "cold"),
+                  "program_families": {fam: sum(1 for i, _ in progs if i.startswith(fam)) for fam in
+                                       ("tb:", "pserr:", "c02:", "alone:", "flow:", "pair:")}})
   rep.evaluations = transitions
-  rep.nontrivial_extra = sum(1 for i, s in progs if any(o[i]["nerr"] for c in data[seeds[0]].values() for o in [c]))
-  rep.outcome("distinct-outputs", states)
+  s0 = data[seeds[0]]
+  rep.nontrivial_extra = sum(1 for i, _ in progs if any(o.get(i, {}).get("nerr") for o in s0.values()))
+  rep.outcome("programs-with-one-output", sum(1 for _ in progs) - len([1 for k, _, c in viol if c["kind"] == "diff"]))
   rep.outcome("analyses", transitions)
-  rep.sample({"program": ERR[0], "configs": list(data[seeds[0]].keys())[:6]})
-  rep.rule = ("state = (hash seed, history of analyses in the process, loader fresh/reused); transition = analyse one "
-              "more program in a fork of that state; every (program, configuration) executed on the real pipeline; "
-              "states counts distinct outputs per program summed (== programs when pure); non-trivial = programs with errors")
+  rep.outcome("programs-with-errors", rep.nontrivial_extra)
+  rep.sample({"program": ERR[0], "configs": list(s0.keys())})
+  rep.sample({"chain": [i for i, _ in chunks_of(progs, "rev", 7, 1)[3][:6]], "config": "reuse-rev#3 (first six programs of the chain)"})
+  rep.rule = ("state = (hash seed, loader mode, sequence of programs analysed so far in the process); transition = analyse one "
+              "more program on the real pipeline (pyi text, ordered error report, pickled stub bytes digested); cold = every program "
+              "in a process forked from the import-only state; fresh/reuse = chains cut from differently ordered program lists so each "
+              "program has different predecessors in each configuration; every program's outputs over all configurations must be "
+              "identical, errors unique and sorted by line; non-trivial = programs with errors")
   rep.assumptions += ["hash seeds are a fixed menu %s, not the 2^32 space" % seeds,
-                      "the import-only parent state is taken as the 'fresh process' state"]
+                      "the import-only parent state is taken as the 'fresh process' state",
+                      "the pickle export runs in a fork of the state (pytype exports as the last act of a process; SerializeAst clears class pointers in place)"]
+
+
+def _job_upto(tier, hashseed, progs, jobname, pid_):
+  for name, mode, chunk in jobs_for(tier, hashseed, progs):
+    if name == jobname:
+      ids = [i for i, _ in chunk]
+      return [name, mode, chunk[:ids.index(pid_) + 1]]
+  raise KeyError(jobname)
 
 
 def replay(case):
+  """Re-runs the chains that led to the differing outputs (each in a fresh interpreter with its hash seed)."""
   tier = case.get("tier", "quick")
-  seeds = case.get("seeds", [0, 1, 2])
-  progs = [(case["pid"], case["src"])]
-  global programs
-  orig = programs
-  # restrict the space to the one program (children import this module afresh, so pass via env)
-  os.environ["VERIF_C04_ONLY"] = json.dumps(progs)
+  progs = programs(tier)
+  pid_ = case["pid"]
+  by_seed = {}
+  for s, jobname in case["configs"]:
+    by_seed.setdefault(int(s), []).append(_job_upto(tier, s, progs, jobname, pid_))
+  files = {}
   try:
-    data = collect(tier, seeds)
+    for s, jobs in by_seed.items():
+      fd, path = tempfile.mkstemp(suffix=".jobs.json")
+      with os.fdopen(fd, "w") as f:
+        json.dump(jobs, f)
+      files[s] = path
+    data = collect(tier, sorted(by_seed), jobs_files=files)
   finally:
-    os.environ.pop("VERIF_C04_ONLY", None)
-  viol, _, _ = compare(data, progs)
-  return [{"key": k, "summary": s} for k, s, _ in viol]
-
-
-if os.environ.get("VERIF_C04_ONLY"):
-  _only = [tuple(x) for x in json.loads(os.environ["VERIF_C04_ONLY"])]
-
-  def programs(tier, _only=_only):  # pylint: disable=function-redefined
-    return _only
+    for path in files.values():
+      os.unlink(path)
+  viol, _, _ = compare(data, [(pid_, case["src"])])
+  want = vrun.sha(pid_ + case["kind"])
+  return [{"key": k, "summary": s} for k, s, _ in viol if k == want]
